@@ -198,10 +198,20 @@ class QueueMonitor:
         elif name == 'cancel_matching_events':
             self.count('cancel_calls')
             if asset_id is not None:
+                hit = []
                 for s in list(self.pending.values()) + list(self.paused.values()):
                     if s.asset == asset_id and not s.cancelled:
                         s.cancelled = True
+                        hit.append(s)
                         self.count('events_cancelled')
+                bus = self.bus
+                if hit and bus is not None and bus.in_event is None and bus.external_depth == 0:
+                    # nobody asked for this: no event is running and the caller is not the user.  The library
+                    # (run() / simulate()) removed live events on its own, so the run will not execute them.
+                    self.fail('run_window', f'{len(hit)} live event(s) of asset {asset_id} were cancelled by the '
+                              f'library itself while starting a run (not by the user, not by an event): '
+                              f'{[x.brief() for x in hit[:2]]}')
+                    return
             self.compare_sets(env, 'cancel_scope', f'after cancel({asset_id}) at {now}')
 
     def compare_sets(self, env, name, where):
